@@ -94,6 +94,10 @@ def stage(dest, build, attach, cap=4, replay=False):
     else:
         t += "\n[features]\nverif_replay = []\n"
     open(ct, "w").write(t)
+    # crate-level feature gate needed by the Vec::push environment stub (C16); attribute only
+    lib = os.path.join(dest, "src", "lib.rs")
+    lt = open(lib).read()
+    open(lib, "w").write("#![cfg_attr(kani, feature(allocator_api))]\n" + lt)
     guard = '#[cfg(any(kani, feature = "verif_replay"))]'
     with open(os.path.join(dest, "src", "lib.rs"), "a") as fh:
         fh.write('\n%s #[path = "%s/harness/vk.rs"] #[macro_use] pub(crate) mod vk;\n' % (guard, VERIF))
@@ -102,7 +106,7 @@ def stage(dest, build, attach, cap=4, replay=False):
         if not os.path.exists(p):
             raise StageError("anchor file missing: %s" % rel)
         with open(p, "a") as fh:
-            fh.write('\n%s #[path = "%s"] mod %s;\n' % (guard, hpath, modname))
+            fh.write('\n%s #[path = "%s"] pub(crate) mod %s;\n' % (guard, hpath, modname))
     return nrew
 
 if __name__ == "__main__":
